@@ -7,6 +7,9 @@ import PBProofs.Lemmas.DbSim
 import PBProofs.Lemmas.DbPerm
 import PB.Model.DbInj
 import PBProofs.Lemmas.DbInj
+import PB.Model.Iter
+import PBProofs.Lemmas.IterHandOver
+import PB.Gen.DbIter
 /-
 C03 — Secret and crown-jewel records never cross a non-privileged database interface.
 Property theorems only (helper lemmas live in PBProofs/Lemmas/DbPerm.lean).
@@ -423,6 +426,64 @@ theorem injected_learns_at_most_existence_run (o : Opts) :
     unfold Inj.run
     exact ⟨h1, ih now _ _ h3 h4 h2 hrest⟩
 
+/-! ### A running query against concurrent re-flagging ("listed for", every interleaving)
+
+`PB.Iter.HandOver`: the executor visits the candidate records one by one, checks the permission within the
+visit and then sends (blocking while `Next` is full); the consumer receives; a privileged interface marks
+records at any time (`protect x` = the re-flag of `x` has returned). For every number of records, buffer
+capacity and schedule. -/
+
+/-- In every backend's `queryExecutor`, as the source stands (regenerated on every run), `CheckPermission` and
+    `CheckValidity` gate the send within the visit of the record — the model's `check` action. -/
+theorem source_handover_checks_permission :
+    PB.Gen.DbIter.handOverChecks.map (·.1) = ["hashmap", "bbolt", "fstree", "badger"] ∧
+    ∀ e ∈ PB.Gen.DbIter.handOverChecks, "CheckPermission" ∈ e.2 ∧ "CheckValidity" ∈ e.2 := by decide
+
+/-- A record that is marked before its hand-over check is never handed over: it is neither received by the
+    consumer, nor in the buffer, nor being sent — for all candidate lists (distinct keys), capacities, schedules. -/
+theorem marked_before_check_never_handed_over (todo : List Nat) (hn : todo.Nodup) (cap : Nat)
+    (sched : List Iter.HandOver.Act) (s : Iter.HandOver.St)
+    (hs : Iter.HandOver.exec (Iter.HandOver.init todo cap) sched = some s) :
+    ∀ x ∈ s.due, x ∉ s.recvd ∧ x ∉ s.buf ∧ s.hand ≠ some x :=
+  (Iter.HandOver.inv_exec sched _ s (Iter.HandOver.inv_init todo cap hn) hs).2.2.2
+
+/-- Once the re-flag of every record still to be visited has returned, the consumer receives at most what had
+    already left the executor: at most capacity + 1 further records, whatever the schedule does afterwards. -/
+theorem after_reflag_at_most_cap_plus_one (todo : List Nat) (cap : Nat) (pre post : List Iter.HandOver.Act)
+    (s s' : Iter.HandOver.St)
+    (h1 : Iter.HandOver.exec (Iter.HandOver.init todo cap) pre = some s)
+    (hc : ∀ x ∈ s.todo, x ∈ s.prot)
+    (h2 : Iter.HandOver.exec s post = some s') :
+    s'.recvd.length ≤ s.recvd.length + cap + 1 := by
+  have hb : s.buf.length ≤ s.cap :=
+    Iter.HandOver.buf_le_cap_exec pre _ s (by simp [Iter.HandOver.init]) h1
+  have hcap : s.cap = cap := by
+    have : ∀ (l : List Iter.HandOver.Act) (a b : Iter.HandOver.St), Iter.HandOver.exec a l = some b → b.cap = a.cap := by
+      intro l
+      induction l with
+      | nil => intro a b h; simp [Iter.HandOver.exec] at h; rw [h]
+      | cons x rest ih =>
+        intro a b h
+        simp only [Iter.HandOver.exec] at h
+        split at h
+        · rename_i a1 ha
+          have := ih a1 b h
+          rw [this]
+          cases x <;> simp only [Iter.HandOver.step] at ha <;> (repeat' split at ha) <;> cases ha <;> rfl
+        · cases h
+    simpa [Iter.HandOver.init] using this pre _ s h1
+  have hf := Iter.HandOver.closed_exec post s s' hc hb h2
+  unfold Iter.HandOver.inFlight at hf
+  have : (if s.hand.isSome = true then 1 else 0) ≤ 1 := by split <;> omega
+  omega
+
+/-- Deciding the permission when the candidates are collected, and not again at the visit, is not enough: a
+    record marked after the snapshot and before its visit reaches the consumer. -/
+theorem snapshot_time_check_hands_over_marked_record :
+    ∃ sched s, Iter.HandOver.execSnapshotCheck (Iter.HandOver.init [0, 1] 1) sched = some s ∧
+      0 ∈ s.due ∧ 0 ∈ s.recvd := by
+  refine ⟨[.protect 0, .check, .send, .recv], _, rfl, ?_, ?_⟩ <;> decide
+
 /-! ### Non-vacuity -/
 
 /-- Two stores that differ in the content, expiry and crown-jewel flag of a secret record are indistinguishable
@@ -478,5 +539,10 @@ example :
     (Inj.step { loc := true, int := false } st (.putNew w) 10).1.sets = [] ∧
     ((Inj.step { loc := false, int := true } st (.put w) 10).1.sets.map (·.key)) = ["p/a"] ∧
     (Inj.step { loc := true, int := true } st (.delete "p/a") 10).2 = .err .notImpl := by decide
+
+/-- hand-over: 3 records, capacity 1, the second is marked while it waits and is skipped; with the buffer size of the source -/
+example : ((Iter.HandOver.exec (Iter.HandOver.init [0, 1, 2] 1) [.check, .send, .protect 1, .recv, .check, .check, .send, .recv]).map
+    (fun s => (s.recvd, s.due))) = some ([2, 0], [1]) := by decide
+example : PB.Gen.DbIter.nextCap > 0 := by decide
 
 end PB.C03
